@@ -189,6 +189,11 @@ def run_case(case):
                 for par, d in (spec.get("yfactors", {}) if spec is not None else {}).items():
                     for pop, f in d.items():
                         fresh.pars[par].y_factor[pop] = f
+                if (k + depth) % 2 == 0:
+                    # the receiving parameter set already holds a saved state of another year (a working copy that was restarted
+                    # before): the state in the file is the one that counts
+                    fresh.set_initialization(prev_res, float(prev_t[0] if k != 0 else prev_t[-1]))
+                    R.count("spreadsheet_loaded_into_a_parset_that_already_had_a_saved_state")
                 fresh.load_calibration(ss)
                 r2 = P.run_sim(fresh, progset=pset, progset_instructions=instr)
                 C = digest.result_arrays(r2)
